@@ -1,5 +1,5 @@
 //# unit type_table kind=kani_in crate=rusty_linter inject=rusty_linter/src/core/casting.rs
-//# assume "the VM executes a binary operator as in rusty_basic/src/interpreter/handlers/{math,comparison,logical}.rs: + - * / MOD call the Variant method on (A, B); relational operators call A.try_cmp(&B) and store -1/0; AND/OR cast A and B to INTEGER (CastVariant::cast) and then call Variant::and/or.  `vm_binary` below restates that glue (3 lines per handler); the Variant methods, `cast`, `cast_binary_op_q`, `bigger_numeric_type` and `can_cast_to` themselves are the real code."
+//# assume "the VM executes a binary operator as in rusty_basic/src/interpreter/handlers/{math,comparison,logical}.rs: + - * MOD call the Variant method on (A, B); / calls rusty_linter::core::qb_divide on (A, B) (the real function, run here as it is); relational operators call A.try_cmp(&B) and store -1/0; AND/OR cast A and B to INTEGER (CastVariant::cast) and then call Variant::and/or.  `vm_binary` below restates that glue (3 lines per handler); the Variant methods, `qb_divide`, `cast`, `cast_binary_op_q`, `bigger_numeric_type` and `can_cast_to` themselves are the real code."
 //! C12 / C06 — the operator typing table of the checker against the run-time operators.  Contract (property
 //! statement): if the checker accepts an operator application, executing it can never raise Type mismatch nor
 //! apply the operator to an operand of the wrong kind; conversely the table rejects nothing that would run:
@@ -9,10 +9,13 @@
 //!   cast_binary_op_q(l, r, op) == None     =>  the VM operator does return TypeMismatch;
 //!   q1.can_cast_to(q2)  <=>  cast(v: q1, q2) != TypeMismatch;   unary minus / NOT: numeric kinds keep their tag,
 //!   strings are TypeMismatch.
-//! The table itself is also compared with the reference rule (arithmetic: the wider numeric type, `$ + $ = $`;
+//! The table itself is also compared with the reference rule (+ - *: the wider numeric type, `$ + $ = $`;
+//! `/`: floating-point division, SINGLE when both operands are INTEGER or SINGLE, DOUBLE when either is LONG or DOUBLE;
 //! relational: INTEGER when both numeric or both strings; AND/OR/MOD: INTEGER when both numeric).
 //! All 13 operators x 5 x 5 qualifiers, payloads fully symbolic and valid; strings with length <= 1.
-//! Known findings: F5 (`/` re-tags its result: 7 / 2 is SINGLE 3.5 where the table says INTEGER),
+//! Known findings: F5 (`/` re-tagged its result: 7 / 2 was SINGLE 3.5 where the table said INTEGER; repaired: the
+//!                 table types `/` as above and the VM/folder divide through `qb_divide`, which converts both operands
+//!                 and the quotient to that type),
 //!                 F18 (MOD gives TypeMismatch when an operand rounds beyond the LONG range).
 
 use rusty_variant::{Variant, VariantError};
@@ -42,7 +45,12 @@ fn reference(l: Q, r: Q, op: Operator) -> Option<Q> {
     let both_strings = l == Q::DollarString && r == Q::DollarString;
     match op {
         Operator::Plus => if both_strings { Some(Q::DollarString) } else { wider(l, r) },
-        Operator::Minus | Operator::Multiply | Operator::Divide => wider(l, r),
+        Operator::Minus | Operator::Multiply => wider(l, r),
+        Operator::Divide => {
+            // floating-point division: SINGLE when both operands are INTEGER or SINGLE, DOUBLE when either is LONG or DOUBLE
+            let long_or_double = |q: Q| q == Q::AmpersandLong || q == Q::HashDouble;
+            if !both_numeric { None } else if long_or_double(l) || long_or_double(r) { Some(Q::HashDouble) } else { Some(Q::BangSingle) }
+        }
         Operator::Less | Operator::LessOrEqual | Operator::Equal | Operator::GreaterOrEqual | Operator::Greater | Operator::NotEqual => {
             if both_numeric || both_strings { Some(Q::PercentInteger) } else { None }
         }
@@ -126,7 +134,7 @@ fn vm_binary(op: Operator, a: Variant, b: Variant) -> Out {
         Operator::Plus => out_v(a.plus(b)),
         Operator::Minus => out_v(a.minus(b)),
         Operator::Multiply => out_v(a.multiply(b)),
-        Operator::Divide => out_v(a.divide(b)),
+        Operator::Divide => out_l(qb_divide(a, b)),
         Operator::Modulo => out_v(a.modulo(b)),
         Operator::And | Operator::Or => {
             let ca = a.cast(Q::PercentInteger);
@@ -962,7 +970,9 @@ harness!(binary_single_single, 1, {
     let out = vm_binary(Operator::Multiply, Variant::VSingle(a), Variant::VSingle(b));
     check(Q::BangSingle, Q::BangSingle, Operator::Multiply, out, false);
     assert!(cast_binary_op_q(Q::BangSingle, Q::BangSingle, Operator::Multiply).is_some(), "numeric operands are accepted for every operator");
-    vs::assume((a as f64).abs() <= 3.0e33);
+    if KF_F26 {
+        vs::assume((a as f64).abs() <= 3.0e33);
+    }
     let out = vm_binary(Operator::Divide, Variant::VSingle(a), Variant::VSingle(b));
     check(Q::BangSingle, Q::BangSingle, Operator::Divide, out, KF_F5);
     assert!(cast_binary_op_q(Q::BangSingle, Q::BangSingle, Operator::Divide).is_some(), "numeric operands are accepted for every operator");
@@ -1036,7 +1046,9 @@ harness!(binary_single_double, 1, {
     let out = vm_binary(Operator::Multiply, Variant::VSingle(a), Variant::VDouble(b));
     check(Q::BangSingle, Q::HashDouble, Operator::Multiply, out, false);
     assert!(cast_binary_op_q(Q::BangSingle, Q::HashDouble, Operator::Multiply).is_some(), "numeric operands are accepted for every operator");
-    vs::assume((a as f64).abs() <= 1.0e303);
+    if KF_F26 {
+        vs::assume((a as f64).abs() <= 1.0e303);
+    }
     let out = vm_binary(Operator::Divide, Variant::VSingle(a), Variant::VDouble(b));
     check(Q::BangSingle, Q::HashDouble, Operator::Divide, out, KF_F5);
     assert!(cast_binary_op_q(Q::BangSingle, Q::HashDouble, Operator::Divide).is_some(), "numeric operands are accepted for every operator");
@@ -1256,7 +1268,9 @@ harness!(binary_double_single, 1, {
     let out = vm_binary(Operator::Multiply, Variant::VDouble(a), Variant::VSingle(b));
     check(Q::HashDouble, Q::BangSingle, Operator::Multiply, out, false);
     assert!(cast_binary_op_q(Q::HashDouble, Q::BangSingle, Operator::Multiply).is_some(), "numeric operands are accepted for every operator");
-    vs::assume((a as f64).abs() <= 1.0e303);
+    if KF_F26 {
+        vs::assume((a as f64).abs() <= 1.0e303);
+    }
     let out = vm_binary(Operator::Divide, Variant::VDouble(a), Variant::VSingle(b));
     check(Q::HashDouble, Q::BangSingle, Operator::Divide, out, KF_F5);
     assert!(cast_binary_op_q(Q::HashDouble, Q::BangSingle, Operator::Divide).is_some(), "numeric operands are accepted for every operator");
@@ -1330,7 +1344,9 @@ harness!(binary_double_double, 1, {
     let out = vm_binary(Operator::Multiply, Variant::VDouble(a), Variant::VDouble(b));
     check(Q::HashDouble, Q::HashDouble, Operator::Multiply, out, false);
     assert!(cast_binary_op_q(Q::HashDouble, Q::HashDouble, Operator::Multiply).is_some(), "numeric operands are accepted for every operator");
-    vs::assume((a as f64).abs() <= 1.0e303);
+    if KF_F26 {
+        vs::assume((a as f64).abs() <= 1.0e303);
+    }
     let out = vm_binary(Operator::Divide, Variant::VDouble(a), Variant::VDouble(b));
     check(Q::HashDouble, Q::HashDouble, Operator::Divide, out, KF_F5);
     assert!(cast_binary_op_q(Q::HashDouble, Q::HashDouble, Operator::Divide).is_some(), "numeric operands are accepted for every operator");
